@@ -23,7 +23,7 @@ from sim.ref import graph as gref
 from sim.seam import OwnedRNG
 
 ID = "C16"
-RUNS = {"quick": 6000, "thorough": 200000}
+RUNS = {"quick": 3000, "thorough": 150000}
 BUDGET = {"quick": 80, "thorough": 1500}
 CHUNK = {"quick": 50, "thorough": 200}
 RUN_TIMEOUT_S = 300
@@ -66,10 +66,12 @@ def gen_case(run_seed, tier):
                 break
     else:
         g, fam = graphs.random_graph(sz, 2, 6 if tier != "thorough" else 7, connected=sz.random() < 0.7, allow_isolated=sz.random() < 0.2)
+    if not big and sz.random() < 0.12:
+        g, fam = graphs.path(sz.randint(3, 6)), "canonical path"  # the labelling linear_partial_orbit is written for
     n = g[0]
     calls = []
     for _ in range(sz.randint(3, 7)):
-        kind = wl.choices(["iso", "orbit", "rgs", "linear", "dfs", "relabel", "map"], weights=[6, 6, 1, 1, 1, 1, 1])[0]
+        kind = wl.choices(["iso", "orbit", "rgs", "linear", "dfs", "relabel", "map"], weights=[6, 6, 1, 1.5, 2.5, 1, 2])[0]
         if n > 6 and kind in ("orbit", "dfs", "rgs", "linear"):
             kind = "iso"
         if kind == "iso":
@@ -83,8 +85,16 @@ def gen_case(run_seed, tier):
                           wl.random() < 0.5, wl.random() < 0.4, wl.random() < 0.25])
         else:
             calls.append([kind, wl.randrange(10**6)])
-    return {"n": n, "edges": [list(e) for e in g[1]], "family": fam, "history": calls, "lseed": sz.randrange(10**9),
-            "bug_rate": sz.choice([0.0, 0.0, 0.1, 0.3, 0.6])}
+    # a second graph of the same size class: several calls of one run then act on different inputs, so that state kept
+    # by the library between calls (caches, mutable defaults) shows up inside one repeatable run
+    if n <= 6:
+        g2, _ = graphs.random_graph(sz, max(2, n - 1), min(6, n + 1), connected=sz.random() < 0.7, allow_isolated=False)
+    else:
+        g2 = g
+    for c in calls:
+        c.append(wl.randrange(2))
+    return {"n": n, "edges": [list(e) for e in g[1]], "n2": g2[0], "edges2": [list(e) for e in g2[1]], "family": fam, "history": calls,
+            "lseed": sz.randrange(10**9), "bug_rate": sz.choice([0.0, 0.0, 0.1, 0.3, 0.6])}
 
 
 def simplify(case):
@@ -111,10 +121,13 @@ def as_adj(x):
 def run_case(case):
     warnings.filterwarnings("ignore")
     ctx = Ctx(ID)
-    n, edges = case["n"], [tuple(e) for e in case["edges"]]
-    G = graphs.to_nx((n, edges))
-    A0 = gref.adj_from_edges(n, edges)
-    orbit = gref.lc_orbit(A0) if n <= 7 else None
+    inputs = [(case["n"], [tuple(e) for e in case["edges"]])]
+    if case.get("edges2") is not None:
+        inputs.append((case["n2"], [tuple(e) for e in case["edges2"]]))
+    prepared = []
+    for (nn, ee) in inputs:
+        a0 = gref.adj_from_edges(nn, ee)
+        prepared.append((nn, ee, graphs.to_nx((nn, ee)), a0, gref.lc_orbit(a0) if nn <= 7 else None))
     lib = random.Random(case["lseed"])
     bug = random.Random(case["lseed"] + 5)
     nontrivial = False
@@ -122,6 +135,9 @@ def run_case(case):
     with seam:
         for step, call in enumerate(case["history"]):
             k = call[0]
+            which = call[-1] % len(prepared)  # last element of every call: which of the run's input graphs
+            call = call[:-1]
+            n, edges, G, A0, orbit = prepared[which]
             ctx.steps += 1
             nd0 = len(seam.draws)
             try:
@@ -232,7 +248,11 @@ def run_case(case):
                                 continue
                             out = rm.depth_first_orbit(G)
                             ctx.probe("dfs_done")
-                        if not judge_orbit(ctx, step, out, n, orbit, {"call": k}, distinct=None):
+                        # rgs and linear document "a list of distinct graphs" (linear only for the canonical labelling
+                        # 0-1-..-n-1 its scripted sequence is written for); depth-first builds its list from walks over
+                        # pairwise non-isomorphic graphs. Otherwise membership only.
+                        canonical_path = k == "linear" and sorted(edges) == [(i, i + 1) for i in range(n - 1)]
+                        if not judge_orbit(ctx, step, out, n, orbit, {"call": k}, distinct="equal" if (k in ("rgs", "dfs") or canonical_path) else None):
                             break
                         ctx.log(step, k, len(out))
                     elif k == "relabel":
@@ -249,8 +269,18 @@ def run_case(case):
                         r = random.Random(call[1])
                         perm = list(range(n))
                         r.shuffle(perm)
-                        H = nx.from_numpy_array(np.array([[1 if gref.relabel(A0, perm)[i] >> j & 1 else 0 for j in range(n)] for i in range(n)]))
-                        mp = rm.get_relabel_map(G, H)
+                        H0 = nx.from_numpy_array(np.array([[1 if gref.relabel(A0, perm)[i] >> j & 1 else 0 for j in range(n)] for i in range(n)]))
+                        # graphs whose node insertion order is not the sorted one (same labelled graphs)
+                        G1, H = nx.Graph(), nx.Graph()
+                        o1, o2 = list(range(n)), list(range(n))
+                        if r.random() < 0.6:
+                            r.shuffle(o1)
+                            r.shuffle(o2)
+                        G1.add_nodes_from(o1)
+                        G1.add_edges_from(G.edges)
+                        H.add_nodes_from(o2)
+                        H.add_edges_from(H0.edges)
+                        mp = rm.get_relabel_map(G1, H)
                         mp = {a: b for a, b in mp.items() if a != -1}
                         if sorted(mp) != list(range(n)) or sorted(mp.values()) != list(range(n)) or any(H.has_edge(mp[u], mp[v]) != G.has_edge(u, v) for u in range(n) for v in range(u + 1, n)):
                             ctx.violate("K_iso_map_wrong", step, f"get_relabel_map returned {mp}, not an isomorphism", {"call": "get_relabel_map"})
